@@ -306,7 +306,7 @@ func (p *printVisitor) EnterOperationDefinition(ref int) {
 	switch p.document.OperationDefinitions[ref].OperationType {
 	case ast.OperationTypeQuery:
 		// the shorthand form `{ ... }` is only available to a query without name, variables, directives and description
-		if hasName || hasVariables || hasDirectives || hasDescription {
+		if hasName || hasVariables || hasDirectives || hasDescription || p.followsTypeSystemDefinition(ref) {
 			p.write(literal.QUERY)
 		}
 	case ast.OperationTypeMutation:
@@ -325,6 +325,26 @@ func (p *printVisitor) EnterOperationDefinition(ref int) {
 			p.write(literal.SPACE)
 		}
 	}
+}
+
+// followsTypeSystemDefinition reports whether the root node in front of the operation is a type system definition or
+// extension. A definition without a body (`type T`, `extend type T @d`, ...) would take the `{` of the shorthand form
+// as its own body, so such an operation is printed with the query keyword.
+func (p *printVisitor) followsTypeSystemDefinition(ref int) bool {
+	previous := ast.NodeKindUnknown
+	for _, node := range p.document.RootNodes {
+		if node.Kind == ast.NodeKindOperationDefinition && node.Ref == ref {
+			break
+		}
+		if node.Kind != ast.NodeKindUnknown {
+			previous = node.Kind
+		}
+	}
+	switch previous {
+	case ast.NodeKindUnknown, ast.NodeKindOperationDefinition, ast.NodeKindFragmentDefinition:
+		return false
+	}
+	return true
 }
 
 func (p *printVisitor) LeaveOperationDefinition(ref int) {
